@@ -445,7 +445,14 @@ impl KotoVm {
         #[cfg(koto_verif)]
         self.verif_event("CallFnEnter", 0, 0, "");
 
-        let result_register = self.next_register();
+        // The result register, the frame base, and the arguments (or the elements of a temporary
+        // tuple along with the tuple itself) need to be addressable from the current frame.
+        let required_registers = 3 + match &args {
+            CallArgs::Single(_) => 1,
+            CallArgs::Separate(args) => args.len(),
+            CallArgs::AsTuple(args) => args.len(),
+        };
+        let result_register = self.next_registers(required_registers)?;
         self.registers.push(KValue::Null); // Result register
 
         let args = match (&args, &function) {
@@ -541,7 +548,7 @@ impl KotoVm {
 
         let old_frame_count = self.call_stack.len();
 
-        let result_register = self.next_register();
+        let result_register = self.next_registers(2)?;
         let value_register = result_register + 1;
 
         self.registers.push(KValue::Null); // `result_register`
@@ -578,7 +585,7 @@ impl KotoVm {
     pub fn run_binary_op(&mut self, op: BinaryOp, lhs: KValue, rhs: KValue) -> Result<KValue> {
         let old_frame_count = self.call_stack.len();
 
-        let result_register = self.next_register();
+        let result_register = self.next_registers(3)?;
         let lhs_register = result_register + 1;
         let rhs_register = result_register + 2;
 
@@ -655,7 +662,7 @@ impl KotoVm {
     ) -> Result<KValue> {
         let old_frame_count = self.call_stack.len();
 
-        let result_register = self.next_register();
+        let result_register = self.next_registers(3)?;
         let container_register = result_register + 1;
         let read_arg_register = result_register + 2;
 
@@ -689,7 +696,7 @@ impl KotoVm {
     ) -> Result<KValue> {
         let old_frame_count = self.call_stack.len();
 
-        let result_register = self.next_register();
+        let result_register = self.next_registers(4)?;
         let container_register = result_register + 1;
         let write_arg_register = result_register + 2;
         let write_value_register = result_register + 3;
@@ -3877,6 +3884,16 @@ impl KotoVm {
     // Returns the register id that corresponds to the next push to the value stack
     fn next_register(&self) -> u8 {
         (self.registers.len() - self.register_base) as u8
+    }
+
+    // Returns the register id that corresponds to the next push to the value stack,
+    // after checking that `count` registers can be addressed from the current frame
+    fn next_registers(&self, count: usize) -> Result<u8> {
+        let next_register = self.registers.len() - self.register_base;
+        if next_register + count > u8::MAX as usize + 1 {
+            return runtime_error!("Overflow of the current frame's register stack");
+        }
+        Ok(next_register as u8)
     }
 
     // Sets the register, which must already be available in the stack
